@@ -1,6 +1,7 @@
 (* C05 - a command behaves the same wherever it is hosted.  Statements only. *)
 From Coq Require Import List Arith Bool.
 From Crux Require Import Rt.Lang Rt.Rt Rt.Host Rt.Check Rt.Frame Rt.Props Rt.Chain.
+From Crux Require Rt.Evict.
 Import ListNotations.
 
 (* Full statement (kept visible): for every command c, every wrapper context W built from the
@@ -59,6 +60,17 @@ Theorem C05_hosting_task_never_evicted : forall fuel cid slot H H',
   EvictHost.OrdH H -> run_task (S fuel) cid slot H = Some (Cancelled, H') ->
   exists t, slab_get slot (gcmd cid H') = Some t /\ EvictHost.evictable_strict (t_fs t).
 Proof. exact EvictHost.evict_sound_full. Qed.
+
+(* One layer of "runs to quiescence, no wake-up lost between layers", for every heap satisfying the order invariant:
+   when Stream::poll_next of a hosted command answers Pending, the command has no pending output, its own ready and
+   spawn queues are empty (unless it has been aborted), and its cell still holds the host's waker or that waker has
+   been woken - whatever happens to it later finds the host subscribed (C05_wake_queues_task) or queued already. *)
+Theorem C05_pending_hosted_command_is_quiet_and_host_subscribed : forall fuel x' w H H',
+  EvictHost.OrdH H -> S x' < length (cmds H) -> poll_next (S fuel) (S x') w H = Some (PNPending, H') ->
+  c_evs (gcmd (S x') H') = [] /\ c_eff (gcmd (S x') H') = [] /\
+  (was_aborted (S x') H' = false -> c_ready (gcmd (S x') H') = [] /\ c_spawnq (gcmd (S x') H') = []) /\
+  (c_atomic (gcmd (S x') H') = Some w \/ Evict.woken_of w H') /\ EvictHost.OrdH H'.
+Proof. exact EvictHost.poll_next_pending_quiet_and_subscribed. Qed.
 
 (* hosting never touches abort bookkeeping of any existing command (frame theorem) *)
 Theorem C05_hosting_frame : forall fuel cid w H r H',
